@@ -31,27 +31,33 @@ func valueFieldByName(v reflect.Value, fields []string) (out reflect.Value, ok b
 		return
 	}
 
+	// only exported fields can be reached
+	if sf, found := v.Type().FieldByName(fields[0]); !found || !sf.IsExported() {
+		return
+	}
+
 	out = v.FieldByName(fields[0])
 
-	// if pointer we dereference
+	// if pointer we dereference, a nil pointer stands for the zero value
 	if out.Kind() == reflect.Ptr {
 		if out.IsZero() {
-			out = reflect.New(out.Type().Elem())
+			out = reflect.New(out.Type().Elem()).Elem()
 		} else {
 			out = out.Elem()
 		}
-		// pointer is the last element of the path
-		if len(fields) == 1 {
-			return out, out.IsValid()
-		}
+	}
+
+	// last element of the path
+	if len(fields) == 1 {
+		return out, out.IsValid()
+	}
+
+	// the path continues, it can only do so through a structure
+	if out.Kind() == reflect.Struct {
 		return valueFieldByName(out, fields[1:])
 	}
 
-	if out.Kind() == reflect.Struct && len(fields) > 1 {
-		return valueFieldByName(out, fields[1:])
-	}
-
-	return out, out.IsValid()
+	return reflect.Value{}, false
 }
 
 func fieldByName(o Object, fpath []string) (i interface{}, ok bool) {
